@@ -68,7 +68,7 @@ Qed.
    not, with any Delay groups and failed rows) returns normally *)
 Theorem process_file_never_raises rows perm1 perm2 : exists out, process_file true perm1 perm2 rows = Ok out.
 Proof.
-  unfold process_file. cbn [sort_dataframe_by_onsets].
+  unfold process_file, process_file_from. cbn [sort_dataframe_by_onsets].
   destruct (needs_sorting rows); cbn [bind].
   - match goal with |- context [filter_by_index_list ?d _] =>
       destruct (filter_by_index_list_ok d) as [lines Hl] end.
@@ -80,3 +80,33 @@ Qed.
 
 Corollary process_file_unrepaired_never_raises rows : exists out, process_file false None None rows = Ok out.
 Proof. exact (process_file_never_raises rows None None). Qed.
+
+(* ------------------------------------------------------------------ *)
+(* Several files on one SpreadsheetValidator object                    *)
+(* ------------------------------------------------------------------ *)
+Lemma sv_validate_out fixed sv rows : snd (sv_validate fixed sv rows) = process_file fixed None None rows.
+Proof.
+  unfold sv_validate, process_file. cbn zeta.
+  destruct (process_file_from fixed None None state0 rows) as [[st out]|e]; reflexivity.
+Qed.
+
+(* files_independent: whatever files were validated before with the same SpreadsheetValidator object
+   (whatever scopes they left open), the outcome for a file is that of the file alone, starting with no
+   scope open: process_file is a function of the file only *)
+Theorem files_independent fixed : forall files sv i rows,
+  nth_error files i = Some rows ->
+  nth_error (validate_seq fixed sv files) i = Some (process_file fixed None None rows).
+Proof.
+  induction files as [|f r IH]; intros sv i rows Hn; [destruct i; discriminate|].
+  cbn [validate_seq]. pose proof (sv_validate_out fixed sv f) as Ho.
+  destruct (sv_validate fixed sv f) as [sv' out]. cbn [snd] in Ho. subst out.
+  destruct i as [|i]; cbn [nth_error] in *; [inversion Hn; reflexivity | apply IH; exact Hn].
+Qed.
+
+(* non-vacuity: the reset matters -- run from a validator that still holds a scope opened by an earlier
+   file, an unmatched Offset of that name would go unreported *)
+Lemma carried_scope_would_hide :
+  let rows := [mkRow 1 false [(None, Some (mkMarker Offset [[97%N]]))]] in
+  process_file true None None rows = Ok ([], [(0, [mkIssue OffsetBeforeOnset 0 [97%N]])]) /\
+  process_file_from true None None [[97%N]] rows = Ok ([], [(0, [])]).
+Proof. vm_compute. split; reflexivity. Qed.
